@@ -9,7 +9,7 @@ P = {
  "C01": dict(tech="static analysis: MIR who-may-call census + provenance slicing + CFG trace conformance of submit closures and event loops",
    text="Decides the wiring that makes the mailbox a single FIFO consumed sequentially: one mpsc queue per actor constructed only in the two channel constructors; both submit closures capture senders of that one channel and enqueue before they return (forcing) / before their future completes (waiting); every Payload built by the API flows only into the submit closure of the addressed actor; both loops dequeue at one site, invoke a dequeued task exactly once and drive its future to completion before the next dequeue; the payload is a boxed FnOnce borrowing the actor exclusively; the crate is unsafe-free. Not decided: linearizability of the futures-channel queue itself (trusted primitive).", ref="§6 C01"),
  "C02": dict(tech="static analysis: provenance slicing of response slots, ownership graph of the loop future, error-propagation census",
-   text="Decides that each call-like site creates one oneshot per invocation whose sender is moved into the payload and completed only with the result of the handler invocation for that message, that the caller's Ok derives only from that receiver; that the loop future owns receiver, context and stop notifier so every exit releases them; that the notifier fires only on the graceful path; that no leak primitive exists; and that every fallible internal call is propagated or handled by an enumerated idiom. Wake-up correctness of the external primitives is trusted.", ref="§6 C02"),
+   text="Decides that each call-like site creates one oneshot per invocation whose sender is moved into the payload and completed only with the result of the handler invocation for that message, that the caller's Ok derives only from that receiver; that the loop future owns receiver, context and stop notifier so every exit releases them; that the notifier fires only on the graceful path; that no leak primitive exists; and that every fallible internal call is propagated or handled by an enumerated idiom. A handle awaited in place keeps a share of the termination future on every completed outcome, and a join releases the slot lock before it waits, so later operations still resolve. Wake-up correctness of the external primitives is trusted.", ref="§6 C02"),
  "C03": dict(tech="static analysis: trace conformance (language inclusion) of MIR CFGs of the event loops and restart strategies against a protocol monitor",
    text="All CFG paths (hence all schedules, message programs, cancellation and unwind edges) of both event-loop coroutines and the three refresh strategies conform to the incarnation protocol: started once and completed before any dequeue, its error propagated with nothing following, handlers complete before shutdown, finished then stopped exactly once, nothing afterwards.", ref="§6 C03"),
  "C04": dict(tech="static analysis: marker-flow provenance + who-may-call + CFG trace conformance (stop barrier, announce-after-stopped)",
@@ -17,7 +17,7 @@ P = {
  "C05": dict(tech="static analysis: ownership/keep-alive graph over types (closure captures, coroutine suspension points, dyn table) + census + CFG conformance",
    text="Weak handle kinds, the context, the loop futures (captures and every suspension point), timers at their sleep and the broker state own no mailbox sender or strong channel Arc of the actor; every strong kind does; strong channel Arcs are created only in the channel constructors; the closed-mailbox edge takes the graceful exit. A fact about types, hence valid for all handle programs.", ref="§6 C05"),
  "C15": dict(tech="static analysis: ownership graph over types + provenance slicing of handle-construction sites",
-   text="Every strong handle kind owns a strong Arc of every channel half that any Weak::upgrade in the context operations / weak-handle upgrade closures needs; every handle-building site takes channel halves, id and termination future only from the handle it was derived from; the birth site wires address and context to the same channel and id.", ref="§6 C15"),
+   text="Every strong handle kind owns a strong Arc of every channel half that any Weak::upgrade in the context operations / weak-handle upgrade closures needs; every handle-building site takes channel halves, id and termination future only from the handle it was derived from; the birth site wires address and context to the same channel and id. Self-stop / self-restart answer Ok only for a submitted request, and the bounded forcing closure enqueues through a fresh Sender clone so it is refused only by a closed mailbox.", ref="§6 C15"),
  "C16": dict(tech="static analysis: resolved field-access census + dyn-table / generic-argument agreement + CFG conformance of the broadcast",
    text="The child table is touched only by add_child / register_child / send_to_children and the constructor, never emptied, and owned by the loop future through the Context; what is stored is a strong Sender<M> under TypeId::of::<M>, looked up and downcast alike; one force_send(clone) per matching child, failures do not end the broadcast.", ref="§6 C16"),
 }
@@ -29,23 +29,23 @@ P.update({
  "C07": dict(tech="static analysis: marker-flow provenance + CFG trace conformance of the loop and of the three refresh strategies + builder type-state (signatures and generic-argument agreement)",
    text="Restart markers go through the forcing closure of the one queue; the loop hands the current actor and its own context to RestartStrategy::refresh, assigns the result to its actor place, fails on its error and otherwise continues with the same receiver, context and notifier; the strategies follow stopped → (Default) → started and abort the previous incarnation's timers in between on all paths; the builder's type-state selects the strategy that the terminals instantiate. 'Behaves like a freshly started actor' beyond callbacks, value and timers is not decided.", ref="§6 C07"),
  "C08": dict(tech="static analysis: static-reference census + lock-scope conformance on all CFG paths (with a must-moved analysis for guard drops) + polarity of liveness decisions",
-   text="The registry static is referenced only by the registry operations; each holds one guard across all its map operations, its liveness decision and (spawn-on-demand) spawn, detach and insert, mutating ones a write guard; register inserts only when no live instance is registered and otherwise fails without touching the map; replace/unregister return what the map returned; lookups hand out entries only behind the running filter; the spawned instance returned is the one inserted; already_running has running polarity. Linearizability as such is not decided (follows from these scopes plus the trusted RwLock).", ref="§6 C08"),
+   text="The registry static is referenced only by the registry operations; each holds one guard across all its map operations, its liveness decision and (spawn-on-demand) spawn, detach and insert, mutating ones a write guard; register inserts only when no live instance is registered and otherwise fails without touching the map; replace/unregister return what the map returned; lookups hand out entries only behind the running filter; the spawned instance returned is the one inserted; already_running has running polarity. ServiceStillRunning is decided only under the lock and the builder's register reaches Addr::register on every path. Linearizability as such is not decided (follows from these scopes plus the trusted RwLock).", ref="§6 C08"),
  "C09": dict(tech="static analysis: ownership graph of the broker state + key/value provenance of the subscriber table + CFG trace conformance of the fan-out + call-graph census of publish/subscribe entry points",
-   text="The table holds weak senders keyed by the carried sender's own id (ids minted only by the atomic counter); per publication the live entries are upgraded once and each receives exactly one awaited send of a clone of the publication, failures do not end the fan-out; every entry point ends in Addr::send to the registry's broker actor, so its single mailbox orders everything. Progress against a full bounded subscriber mailbox is not decided.", ref="§6 C09"),
+   text="The table holds weak senders keyed by the carried sender's own id (ids minted only by the atomic counter); per publication the live entries are upgraded once and each receives exactly one awaited send of a clone of the publication, failures do not end the fan-out; every entry point ends in Addr::send to the registry's broker actor, so its single mailbox orders everything. Each entry point answers only after the call it forwards to has completed, on every path. Progress against a full bounded subscriber mailbox is not decided.", ref="§6 C09"),
  "C10": dict(tech="static analysis: CFG trace conformance of the four timer coroutines + duration provenance into each runtime's sleep (3 configurations) + ownership at sleep suspension points",
-   text="interval/interval_with fire only after a completed sleep since the previous firing and end on a failed submit; delayed_* sleep once and fire once; the Duration reaches the runtime's sleep unmodified on tokio, smol and async-std; timers are registered abortable, aborted with the context, submit through a weak sender of their own context and hold nothing strong while sleeping. Measured tick counts and spacing are not decided (no clock is run; they follow from these rules plus the trusted sleep).", ref="§6 C10"),
+   text="interval/interval_with fire only after a completed sleep since the previous firing and end on a failed submit; delayed_* sleep once and fire once; the Duration reaches the runtime's sleep unmodified on tokio, smol and async-std; timers are registered abortable, aborted with the context, submit through a weak sender of their own context and hold nothing strong while sleeping. A forced tick is refused only by a closed mailbox (fresh Sender clone per forced payload). Measured tick counts and spacing are not decided (no clock is run; they follow from these rules plus the trusted sleep).", ref="§6 C10"),
  "C11": dict(tech="static analysis: configuration-flow provenance (setters, terminals, loop captures) + CFG trace conformance of the timeout wrapper and of the loop's reaction",
    text="Setters store the limit / flag unmodified on all paths; terminals run the loop of the environment configured with the builder's config; every Task's future goes to the wrapper with config.timeout; the wrapper arms Delay with exactly that limit only on the Some edge, races exactly the handler future against it, maps the timer arm to Err(Timeout) and the other to the handler's completion, and awaits the future alone when no timeout is configured; on Err the loop fails without stopped()/announcement iff fail_on_timeout, else continues with the next message. The timing boundary itself is not decided.", ref="§6 C11"),
  "C12": dict(tech="static analysis: call-graph classification of submit paths through the dyn table + provenance of the capacity + shape of the waiting/forcing closures",
    text="Decides the wiring necessary for the bound: send-style APIs reach only the waiting closure, non-waiting ones only the forcing closure; the bounded waiting path awaits SinkExt::send (feed+flush) on a fresh clone of the Sender of mpsc::channel(capacity) with the capacity unmodified from builder to channel; forcing closures are synchronous non-waiting enqueues without blocking primitives; stop/restart entry points are synchronous. The counting inequality and eventual return of a parked send live inside futures-channel and are not decided.", ref="§6 C12"),
  "C13": dict(tech="static analysis: CFG trace conformance of the stream loop + provenance of selected items + structure of the select (which futures are raced, fairness)",
-   text="All paths of the stream loop follow the incarnation protocol with finished→stopped exactly once on Stop, closed mailbox, exhausted stream and `complete`; every selected item / task is dispatched exactly once and completed before the next select; handlers are call sites of the loop itself while the select races only the two next() futures; the select is fair (shuffled) or mailbox-first; stream and mailbox are owned by the loop future. Cancel-safety of Next is trusted.", ref="§6 C13"),
+   text="All paths of the stream loop follow the incarnation protocol with finished→stopped exactly once on Stop, closed mailbox, exhausted stream and `complete`; every selected item / task is dispatched exactly once and completed before the next select; handlers are call sites of the loop itself while the select races only the two next() futures; the select is fair (shuffled) or mailbox-first; stream and mailbox are owned by the loop future. One queue per mailbox, so messages keep their own order. Cancel-safety of Next is trusted.", ref="§6 C13"),
  "C14": dict(tech="static analysis: polarity abstract interpretation of the liveness queries + who-may-call census of Shared::peek / polls of the termination future",
    text="Each liveness query polls a clone of its own handle's shared termination future (not peek) and reports the right polarity; nobody else turns that future into a boolean; the registry operations consult the queries. A thread race inside Shared::poll is primitive behaviour and not decided.", ref="§6 C14"),
  "C17": dict(tech="static analysis: CFG trace conformance + provenance of the loops' result and of each runtime's join closure (3 configurations) + forwarding checks of the OwningAddr API",
    text="The loop returns its own actor place only after the completed stopped() and the announcement; on tokio, smol and async-std the join takes the runtime handle out of its slot under the lock, awaits exactly that handle and flattens failures to None without panicking; join/consume/consume_sync/detach/to_addr forward to the handle / address they own, consume* stop first.", ref="§6 C17"),
  "C18": dict(tech="static analysis: must-consume rule on elaborated-drop MIR + per-runtime sibling cross-check from a table of task-handle drop semantics + MIR digest equality of runtime-independent code across configurations",
-   text="No spawn entry point (nor any other function) drops a freshly obtained ActorHandle/OwningAddr on a normal path; where dropping the runtime's handle cancels (smol) a detach function is registered that takes and detaches it, ActorHandle::detach invokes it and spawn_future detaches; the default spawner resolves per configuration; all runtime-independent functions are the same program in the three configurations. Behavioural equivalence of the three external executors themselves is not decided.", ref="§6 C18"),
+   text="No spawn entry point (nor any other function) drops a freshly obtained ActorHandle/OwningAddr on a normal path; where dropping the runtime's handle cancels (smol) a detach function is registered that takes and detaches it, ActorHandle::detach invokes it and spawn_future detaches; the default spawner resolves per configuration; all runtime-independent functions are the same program in the three configurations. A join in progress never holds the slot lock while waiting (smol's detach takes it synchronously). Behavioural equivalence of the three external executors themselves is not decided.", ref="§6 C18"),
  "C19": dict(tech="static analysis: compile-fail witnesses with compiling twins judged by rustc's JSON diagnostics (type-level encoding)", cat="proof", engine="witness",
    text="Each (rule, entry point) cell of the catalogue is an obligation discharged by the compiler: the ill-typed program is rejected with the expected error code on the marked line and no other error, and its twin — identical but for that line — compiles. 56 cells, 112 programs.", ref="§6 C19",
    note="Trusted: rustc's type checker and trait solver on the repository's stable toolchain; cargo resolving the path dependency on /repo with /repo's Cargo.lock."),
